@@ -53,7 +53,7 @@ func runC16(r *run) {
 			nerr = 40000
 		}
 		for i := 0; i < nerr; i++ {
-			emit(genErrFile(rg.fork(uint64(1<<40 + i)), i))
+			emit(genErrFile(rg.fork(uint64(1<<40+i)), i))
 		}
 	}
 	driveCases(r, gen, execC16)
